@@ -115,6 +115,32 @@ fn seeds(ep: &str) -> Vec<Vec<u8>> {
         "hdr_content_disposition" => s(&["attachment; filename=\"a b.txt\"", "inline; filename*=utf-8''%e2%82%ac%20rates; filename=x", "form-data; name=x; filename=file.txt"]),
         "hdr_xmatrix" => s(&["X-Matrix origin=\"a.b:80\",destination=c.d,key=\"ed25519:k1\",sig=\"dGVzdA==\"", "X-Matrix key=\"ed25519:1\",origin=a.b,sig=dGVzdA"]),
         "hdr_retry_after" => s(&["120", "Fri, 15 May 2015 15:34:21 GMT", "0"]),
+        "push_ruleset_edits" => vec![
+            j(json!({"ruleset": event_seeds()[6]["content"]["global"], "ops": [
+                {"op": "insert", "kind": "underride", "rule_id": "a", "actions": ["notify"], "conditions": [{"kind": "event_match", "key": "type", "pattern": "m.room.message"}]},
+                {"op": "insert", "kind": "underride", "rule_id": "b", "actions": ["notify", {"set_tweak": "highlight"}], "conditions": []},
+                {"op": "insert", "kind": "underride", "rule_id": "c", "after": "a", "before": "b", "actions": [], "conditions": []},
+                {"op": "insert", "kind": "underride", "rule_id": "c", "after": "b", "before": "a", "actions": [], "conditions": []},
+                {"op": "insert", "kind": "content", "rule_id": "w", "pattern": "word", "actions": ["notify"]},
+                {"op": "insert", "kind": "content", "rule_id": "w", "pattern": "w*rd", "after": "nope", "actions": []},
+                {"op": "insert", "kind": "room", "rule_id": "!r:x.y", "actions": []},
+                {"op": "insert", "kind": "sender", "rule_id": "@u:x.y", "before": ".m.rule.master", "actions": []},
+                {"op": "set_enabled", "kind": "underride", "rule_id": "a", "enabled": false},
+                {"op": "set_actions", "kind": "override", "rule_id": ".m.rule.master", "actions": ["notify"]},
+                {"op": "set_actions", "kind": "override", "rule_id": "missing", "actions": ["notify"]},
+                {"op": "remove", "kind": "override", "rule_id": ".m.rule.master"},
+                {"op": "remove", "kind": "underride", "rule_id": "b"},
+                {"op": "insert", "kind": "override", "rule_id": ".m.rule.new", "actions": []},
+                {"op": "insert", "kind": "override", "rule_id": "x", "after": "y", "actions": []}
+            ]})),
+            j(json!({"ruleset": {}, "ops": [
+                {"op": "insert", "kind": "override", "rule_id": "p", "actions": ["notify"], "conditions": []},
+                {"op": "insert", "kind": "override", "rule_id": "q", "actions": [], "conditions": []},
+                {"op": "insert", "kind": "override", "rule_id": "p", "after": "p", "before": "p", "actions": [], "conditions": []},
+                {"op": "insert", "kind": "override", "rule_id": "r", "after": "p", "before": "q", "actions": [], "conditions": []},
+                {"op": "remove", "kind": "content", "rule_id": "p"}
+            ]})),
+        ],
         "push_get_match" => vec![j(json!({"ruleset": event_seeds()[6]["content"]["global"], "event": event_seeds()[0], "display_name": "hi", "member_count": 2}))],
         "push_flatten" => vec![j(event_seeds()[0].clone()), j(json!({"a": {"b.c": {"d\\e": [1, "x", null, {"o": 1}]}}, "": {"": 1}}))],
         "sig_verify_json" | "sig_verify_event" | "sig_sign" | "sig_hashes_redact" => vec![sig(&signed_obj), sig(&json!({"a": 1, "signatures": {"x.y": {"ed25519:1": "AAAA"}}}))],
@@ -530,6 +556,9 @@ fn oracle(c: &WireCase, cx: &mut CaseCtx) -> Result<(), String> {
                 return Ok(());
             }
         };
+        if let Some(msg) = outcome.strip_prefix("LEAK:") {
+            return Err(format!("entry point {ep}: a rejected input had an effect on later calls: {msg}"));
+        }
         if let Some(msg) = outcome.strip_prefix("PANIC:") {
             let nest = json_nesting(payload);
             if (ep == "push_flatten" || ep == "push_get_match") && msg.contains("flattened_json.rs") && nest > 128 && cx.known_finding("flattened_json_from_raw_deep_nesting", json!({"entry_point": ep, "nesting": nest, "panic": msg})) {
